@@ -1,6 +1,7 @@
 package main
 
 import (
+	"regexp"
 	"reflect"
 	"encoding/json"
 	"fmt"
@@ -250,6 +251,11 @@ func c02Typed(g *Gen, s c02Setup, root *ucfg.Config, opts []ucfg.Option, eo, roo
 				fs = append(fs, fld{k, len(x)})
 			}
 		default:
+			if strings.HasPrefix(k, "re") {
+				// a *regexp.Regexp field (the witnesses give such settings valid expressions)
+				fs = append(fs, fld{k, -3})
+				continue
+			}
 			if allSlices || g.R.P(1, 3) {
 				// a []string field for a setting that is no literal list: it may name one
 				fs = append(fs, fld{k, -2})
@@ -271,6 +277,9 @@ func c02Typed(g *Gen, s c02Setup, root *ucfg.Config, opts []ucfg.Option, eo, roo
 		} else if f.list == -2 {
 			t = reflect.TypeOf([]string(nil))
 			cf = append(cf, "TSlice "+coqStr(f.key))
+		} else if f.list == -3 {
+			t = reflect.TypeOf((*regexp.Regexp)(nil))
+			cf = append(cf, "TRe "+coqStr(f.key))
 		} else {
 			cf = append(cf, "TStr "+coqStr(f.key))
 		}
@@ -302,6 +311,12 @@ func c02Typed(g *Gen, s c02Setup, root *ucfg.Config, opts []ucfg.Option, eo, roo
 					es = append(es, "OStr "+coqStr(v.Index(j).String()))
 				}
 				ents = append(ents, fmt.Sprintf("(%s, OList %s)", coqStr(f.key), coqList(es)))
+			} else if f.list == -3 {
+				txt := ""
+				if re, ok := v.Interface().(*regexp.Regexp); ok && re != nil {
+					txt = re.String()
+				}
+				ents = append(ents, fmt.Sprintf("(%s, OStr %s)", coqStr(f.key), coqStr(txt)))
 			} else {
 				ents = append(ents, fmt.Sprintf("(%s, OStr %s)", coqStr(f.key), coqStr(v.String())))
 			}
@@ -416,6 +431,14 @@ func genC02(g *Gen, c08 bool) {
 			{Root: map[string]interface{}{"o": map[string]interface{}{"k": "v"}, "p": "${o}", "q": "${p.k}", "r": "${q}${p.k}"}},
 			// chains of references that end in a list / a single value, read into []string fields (F62)
 			{Root: map[string]interface{}{"a": "${b}", "b": "${c}", "c": []interface{}{1, 2}, "d": "${e}", "e": "${f}", "f": 7}},
+			// a chain of references that ends in the text of a regular expression, read into *regexp.Regexp fields
+			{Root: map[string]interface{}{"re1": "${re2}", "re2": "${re3}", "re3": "x.*", "re4": "${re3}"}},
+			// a section with named settings and a list part whose entries reach one variable through a chain
+			{Root: map[string]interface{}{"s.k": "v", "s.0": "${m}", "s.1": "${m}", "m": "${x}", "x": "val"}},
+			// one name set to a plain value in the configuration and in an Env config, used from a
+			// string of the configuration and from a string held by the Env config in one read
+			{Root: map[string]interface{}{"x": "cfg-x", "first": "${x} ${suffix}", "second": "${suffix} ${x}"},
+				Envs: []map[string]interface{}{{"x": "env-x", "suffix": "<${x}>"}}},
 			// two fields that name the same list as a whole
 			{Root: map[string]interface{}{"a": "${l}", "b": "${l}", "c": "${b}", "l": []interface{}{1, 2}}},
 			// a path that two steps of Has walk through the same reference (F63)
@@ -538,6 +561,12 @@ func genC02(g *Gen, c08 bool) {
 		}
 		if r.P(1, 5) {
 			s.Root["s"] = "${u}"
+		}
+		if c08 && r.P(1, 6) {
+			// a section that is a list as well
+			s.Root["q.k"] = val()
+			s.Root["q.0"] = val()
+			s.Root["q.1"] = val()
 		}
 		nenv := r.Intn(3)
 		for k := 0; k < nenv; k++ {
